@@ -312,7 +312,15 @@ theorem trace_frozen (c : Cfg) (ar aq : Nat) (s : S) (l : Label) (h : Inv c ar a
     · exact ⟨rfl, hcl⟩
     · exact ⟨rfl, hcl⟩
   | connClose => simp [step, connClose, hcl]
-  | terminate code => simp [step, terminateL, parked, hrun, hcl]
+  | terminate code => simp [step, terminateL_eq, parked, hrun, hcl]
+  | terminateStale g code =>
+    simp only [step]
+    rw [terminateStale_eq]
+    split <;> simp [terminateL_eq, parked, hrun, hcl]
+  | terminateRaced code k d t =>
+    simp only [step]
+    rw [terminateRaced_eq]
+    simp [terminateL_eq, parked, hrun, hcl]
 
 /-- the worker is parked and only an event can wake it: which events are still possible -/
 theorem blocked_facts (c : Cfg) (ar aq : Nat) (s : S) (h : Inv c ar aq s) (hb : blocked s = true) :
@@ -545,8 +553,10 @@ theorem terminate_run (c : Cfg) (ar aq : Nat) (s : S) (code : Nat) (h : Inv c ar
   have et : terminateL c s code =
       { resetUpstream c s with
         urr := true, perTry := false, global := false, flags := s.flags ||| DownStreamTerminate,
-        respCode := code, statusVar := some code, resp := some ⟨false, false⟩, direct := true, notify := true } := by
-    unfold terminateL
+        respCode := code, statusVar := some code, resp := some ⟨false, false⟩, direct := true, notify := true,
+        hTok := .loc, dTok := .none, tTok := .none } := by
+    rw [terminateL_eq]
+    unfold terminateAcc
     rw [if_neg (by simp [parked, hrun, hp, hn]), if_neg (by simp [hnr]), if_neg (by simp [hcl]), if_neg (by simp [hurr])]
   generalize hgdef : terminateL c s code = g at et ⊢
   have fg : g.running = true ∧ g.phase = .WaitNotify ∧ g.notify = true ∧ g.cleaned = false ∧ g.upReset = false ∧
